@@ -11,12 +11,15 @@ ID = "C09"
 LEVEL = "exploration"
 RULE = (
     "typed opcode programs (bounded-exhaustive DFS over the 27-op focus alphabet up to the stated "
-    "length, Hypothesis-generated programs over the full alphabet with all encodings, and "
+    "length, further exhaustive alphabets for containers, aliasing and the protocol-5 out-of-band "
+    "buffer opcodes, Hypothesis-generated programs over the full alphabet with all encodings, and "
     "pickle.dumps of generated values at protocols 0-5); after every Interpreter.step() the "
     "(stack depth, mark positions, memo keys) are compared with the instrumented CPython "
     "pure-Python unpickler after the same opcode, for every prefix both accept; Trace.run() must "
     "print each opcode once in order, return the same program text as untraced decompilation and "
-    "leave dumps() unchanged. Non-trivial = program of >= 3 opcodes that contains a MARK-consuming "
+    "leave dumps() unchanged; the CLI face of the same clause on stacks of 1-3 generated programs: "
+    "every line of `fickling FILE` appears in order among the unindented lines of `fickling --trace "
+    "FILE` and no other statement does (same variable and result names across the stack). Non-trivial = program of >= 3 opcodes that contains a MARK-consuming "
     "opcode or memo traffic; distinct = distinct byte strings."
 )
 ASSUMPTIONS = [
@@ -117,6 +120,42 @@ def trace_check(data):
     return None
 
 
+def cli_trace_check(parts, scratch):
+    """CLI face of the trace clause on a stack of pickles: `fickling --trace FILE` must emit the
+    program `fickling FILE` emits (same statements, same variable and result names), the trace
+    lines being the indented lines and the opcode names.  (message|None, klass)"""
+    import os
+    import pickletools
+
+    from checks.c18 import run_cli
+
+    path = os.path.join(scratch.path, "stack.pkl")
+    with open(path, "wb") as f:
+        f.write(b"".join(parts))
+    rc0, out0, _ = run_cli([path])
+    if rc0 != 0 or not out0.strip():
+        return None, "cli-refused"
+    rc1, out1, err1 = run_cli(["--trace", path])
+    plain = out0.decode("utf-8", "replace").splitlines()
+    if rc1 != 0:
+        return f"`fickling --trace` exits {rc1} on a stack that `fickling` decompiles ({err1.strip()[-200:]})", "cli-traced"
+    known = {o.name for o in pickletools.opcodes}
+    traced = [ln for ln in out1.decode("utf-8", "replace").splitlines() if ln and not ln[0].isspace()]
+    # every line of the untraced program, in order, among the unindented traced lines ...
+    it = iter(traced)
+    for ln in plain:
+        if not any(t == ln for t in it):
+            return f"untraced program line {ln!r} is missing (or out of order) in the --trace output", "cli-traced"
+    # ... and no other statement among them (opcode names and free text are the trace's own)
+    want = set(plain)
+    for t in traced:
+        if t in known or t in want:
+            continue
+        if " = " in t or t.startswith(("from ", "import ")):
+            return f"--trace output contains the statement {t!r} which the untraced program does not", "cli-traced"
+    return None, "cli-traced"
+
+
 def check_bytes(data, do_trace=True):
     status, detail, compared = lockstep(data)
     if status == "mismatch":
@@ -129,12 +168,27 @@ def check_bytes(data, do_trace=True):
 
 
 def replay(case):
+    if "parts" in case:
+        from vlib.sandbox import Scratch
+
+        with Scratch("c09") as scratch:
+            msg, _ = cli_trace_check([bytes.fromhex(x) for x in case["parts"]], scratch)
+        return Failure(case, f"CLI trace mismatch: {msg}") if msg else None
     return check_bytes(bytes.fromhex(case["hex"]))
 
 
 def _nontrivial_prog(prog):
     ops = {op for op, _ in prog.instrs}
     return len(prog.instrs) >= 3 and bool(ops & (MARK_CONSUMERS | MEMO_OPS))
+
+
+def _names(data):
+    import pickletools
+
+    try:
+        return [op.name for op, _, _ in pickletools.genops(data)]
+    except Exception:  # noqa: BLE001
+        return []
 
 
 def _nontrivial_bytes(data):
@@ -172,12 +226,18 @@ def shards(tier):
           for i in range(n)]  # fmt: skip
     al[0]["short"] = True
     out += al
+    Lb = 5 if tier == "quick" else 7
+    bu = [{"kind": "enum", "alphabet": "buffers", "L": Lb, "depth": depth, "part": i, "nparts": n}
+          for i in range(n)]  # fmt: skip
+    bu[0]["short"] = True
+    out += bu
     nrand = 16
     per = 250 if tier == "quick" else 4000
     out += [{"kind": "random", "n": per, "idx": i} for i in range(nrand)]
     out += [{"kind": "natural", "n": 150 if tier == "quick" else 2500, "idx": i} for i in range(8)]
     runs = 30000 if tier == "quick" else 1500000
     out += [{"kind": "atheris", "runs": runs, "idx": i} for i in range(1 if tier == "quick" else 6)]
+    out += [{"kind": "cli_stack", "n": 60 if tier == "quick" else 1500, "idx": i} for i in range(8)]
     _ = pres
     return out
 
@@ -193,6 +253,29 @@ def run_shard(spec, seed):
             res, f"c09-{spec['idx']}", os.path.join(os.path.dirname(__file__), "prog_fuzz.py"), ["C09"],
             spec["runs"], seed, seeds=FUZZ_SEEDS if spec["idx"] % 2 == 0 else (), nt=decode.in_typed_domain,
         )
+        return res
+    if spec["kind"] == "cli_stack":
+        from hypothesis import strategies as st
+
+        from vlib.sandbox import Scratch
+
+        prof = asm.full_profile(vocab.ASM_GLOBS)
+        one = st.one_of(
+            asm.programs(prof, max_len=14).map(lambda pr: pr.data),
+            st.sampled_from(FUZZ_SEEDS + (b"cos\ngetpid\n)R.", b"N.", b"cos\ngetpid\n)Rcos\ngetppid\n)R\x86.")),
+        )
+        with Scratch("c09") as scratch:
+
+            def body(parts):
+                msg, klass = cli_trace_check(parts, scratch)
+                calls = sum(sum(n in ("REDUCE", "OBJ", "INST", "NEWOBJ") for n in _names(x)) > 0 for x in parts[:-1])
+                res.note(b"".join(parts), len(parts) >= 2 and calls > 0, klass=[klass, f"stack{len(parts)}"],
+                         sample={"parts": [x.hex() for x in parts]})  # fmt: skip
+                if msg:
+                    return Failure({"parts": [x.hex() for x in parts]}, f"CLI trace mismatch on a stack of {len(parts)}: {msg}")
+                return None
+
+            hypothesis_search(st.lists(one, min_size=1, max_size=3), body, seed, spec["n"], res, batch=500)
         return res
     if spec["kind"] == "enum":
         prof = asm.ENUM_PROFILES[spec["alphabet"]]() if spec.get("alphabet") else asm.focus_profile()
@@ -218,7 +301,8 @@ def run_shard(spec, seed):
             "opcodes before STOP (count in enumerated_programs)"
         )
     elif spec["kind"] == "random":
-        prof = asm.full_profile(vocab.ASM_GLOBS)
+        # every other shard also draws the protocol-5 out-of-band buffer opcodes
+        prof = asm.full_profile(vocab.ASM_GLOBS, buffers=spec["idx"] % 2 == 1)
 
         def body(prog):
             f = check_bytes(prog.data)
